@@ -2577,9 +2577,13 @@ class RelevantPatientInformationQueryServiceClass(ServiceClass):
                     "_is_cancelled": self.is_cancelled,
                 },
             )
+            if responses is None:
+                # No matches and no yields
+                responses = iter([])
+
             responses = cast(Iterator[UserReturnType], responses)
             rsp_status, rsp_identifier = next(responses)
-        except (StopIteration, TypeError):
+        except StopIteration:
             setattr(self.assoc, "abort", self.assoc._abort_blocking)
             # Event handler has aborted or released - before any yields
             if not self.assoc.is_established:
